@@ -435,7 +435,7 @@ def parse_url(url: str) -> Url:
         else:
             port_int = None
 
-        host = _normalize_host(host, scheme)
+        host = _normalize_host(host, scheme) or None
 
         if normalize_uri and path:
             path = _remove_path_dot_segments(path)
